@@ -1,11 +1,11 @@
 import PsyVerif.Model.MiniFIO
 import PsyVerif.Model.Inline
 /-! Driver for C07.
-`(inline <call>)` → `(ok <stmt> <legal> <wellformed> <stable> <noclash>)` | `(refuse <reason>)`
+`(inline <call>)` → `(ok <stmt> <legal> <wellscoped> <stable>)` | `(refuse <reason>)`
 `(run <cstmt> (<bindings>) (<queries>))` → `((values after the program with CALLs, callee locals in `farFrame`) (values after inlineAll))`
 call   ::= `(call (localNames) (outerNames) ((name rank lo1 lo2) ...) (locals) (statics) <stmt> (<actual> ...) [nReturns lastIsReturn])`
 actual ::= `(var y)` `(elem1 a e)` `(elem2 a e e)` `(expr e)` `(sec1 a st u)` `(sec2 a st1 st2 u)` `(col a st1 j u)` `(row a i st2 u)`
-cstmt  ::= `(base <stmt>)` | <call> | `(cseq c ...)` | `(cite e c c)` | `(cloop v lo hi st c)` -/
+cstmt  ::= `(base <stmt>)` | <call> | `(fcall <call> res <stmt>)` | `(cseq c ...)` | `(cite e c c)` | `(cloop v lo hi st c)` -/
 open Proto MiniF C07
 
 def unName : UnOp → String
@@ -69,6 +69,7 @@ def cseqs : List CStmt → CStmt
 partial def parseC : Sexp → Option CStmt
   | .list [.atom "base", s] => do some (.base (← parseStmt s))
   | .list (.atom "call" :: r) => do some (.call (← parseCall (.list (.atom "call" :: r))))
+  | .list [.atom "fcall", c, res, st] => do some (.fcall (← parseCall c) (← res.nat?) (← parseStmt st))
   | .list (.atom "cseq" :: ss) => do some (cseqs (← ss.mapM parseC))
   | .list [.atom "cite", c, t, f] => do some (.ite (← parseExpr c) (← parseC t) (← parseC f))
   | .list [.atom "cloop", v, lo, hi, st, b] => do
@@ -76,7 +77,7 @@ partial def parseC : Sexp → Option CStmt
   | _ => none
 
 def refName : Refusal → String
-  | .earlyReturn => "earlyReturn" | .static => "static" | .container => "container" | .nargs => "nargs"
+  | .earlyReturn => "earlyReturn" | .static => "static" | .container => "container" | .nargs => "nargs" | .loopVarActual => "loopVarActual"
   | .arrayExpr => "arrayExpr" | .rank => "rank" | .stride => "stride"
 
 def b01 (b : Bool) : String := if b then "1" else "0"
@@ -92,8 +93,17 @@ def handle (s : Sexp) : String :=
     | some c =>
       match C07.inline c with
       | .error r => s!"(refuse {refName r})"
-      | .ok st => s!"(ok {showStmt st} {b01 (decide (Legal c))} {b01 (decide (WellFormed c))} " ++
-          s!"{b01 (decide (IndexStable c))} {b01 (decide (NoOuterClash c))})"
+      | .ok st => s!"(ok {showStmt st} {b01 (decide (Legal c))} {b01 (decide (WellScoped c))} " ++
+          s!"{b01 (decide (IndexStable c))})"
+  | .list [.atom "inline", cs, res, st] =>
+    -- function reference: `(inline <call> <result name> <statement using it>)`
+    match parseCall cs, res.nat?, parseStmt st with
+    | some c, some r, some use =>
+      match C07.inline c with
+      | .error e => s!"(refuse {refName e})"
+      | .ok _ => s!"(ok {showStmt (inlineAll (.fcall c r use))} {b01 (decide (Legal c))} {b01 (decide (WellScoped c))} " ++
+          s!"{b01 (decide (IndexStable c))})"
+    | _, _, _ => "bad-call"
   | .list [.atom "run", p, init, qs] =>
     match parseC p with
     | none => "bad-prog"
